@@ -12,7 +12,7 @@
 (* relation swap, a stale cache entry after table reuse, a table retired   *)
 (* twice.                                                                  *)
 (***************************************************************************)
-EXTENDS ArcheAbs, Arche
+EXTENDS ArcheAbs, Arche, Json
 
 CONSTANTS MaxId,     \* entity ids 1..MaxId
           MaxGen,    \* recycling depth
@@ -21,8 +21,8 @@ CONSTANTS MaxId,     \* entity ids 1..MaxId
           CapIncC,
           MaxSteps   \* bound on the length of histories (breadth-first: every state is reached by a shortest history)
 
-VARIABLES s, g, last, steps
-vars == <<s, g, last, steps>>
+VARIABLES s, g, last, steps, hist, base
+vars == <<s, g, last, steps, hist, base>>
 
 Cfg1 == [comps |-> Comps, rels |-> Rels, sized |-> Sized, nres |-> 0, totalBits |-> 256,
          lst |-> [on |-> TRUE, S |-> 63, C |-> {}, hasC |-> FALSE], isDispatch |-> FALSE, subs |-> <<>>, capInc |-> 1, relCapInc |-> 0]
@@ -48,7 +48,17 @@ BatchFilters ==
            : i \in { j \in DOMAIN g.regs : g.regs[j].live } }
 AbsF(bf) == IF bf.fid = -1 THEN bf.f ELSE CachedF(bf.fid, bf.f)
 
+(* Symbolic schedule (the JSON format of the Go harness): entities are referenced by issuance index. *)
+Ref(h) == IF h = Zero THEN -1 ELSE base + (CHOOSE i \in DOMAIN g.iss : g.iss[i] = h) - 1
+RECURSIVE FJ(_)
+FJ(f) == IF f.k = "rel" THEN [k |-> "rel", ids |-> <<>>, subs |-> << FJ(f.subs[1]) >>, tgt |-> Ref(f.tgt), reg |-> 0]
+         ELSE [k |-> f.k, ids |-> f.ids, subs |-> <<>>, tgt |-> -1, reg |-> 0]
+BFJ(bf) == IF bf.fid = -1 THEN FJ(bf.f) ELSE [k |-> "cached", ids |-> <<>>, subs |-> <<>>, tgt |-> -1, reg |-> bf.fid]
+OpBase == [op |-> "", api |-> "", ids |-> <<>>, add |-> <<>>, rem |-> <<>>, e |-> 0, tgt |-> -1, hasRel |-> FALSE, rel |-> 0,
+           hasTgt |-> FALSE, n |-> 0, c |-> 0, v |-> 0, reg |-> 0, qi |-> 0, r |-> 0, w |-> 0]
+
 Init == s = LInit(Cfg2) /\ g = InitWorld(Cfg1) /\ last = [op |-> "init", l1 |-> "", l2ok |-> TRUE] /\ steps = 0
+        /\ hist = <<>> /\ base = 0
 
 RoomFor(n) == Len(s.pool.ents) - 1 - s.pool.avail + n <= MaxId /\ Len(s.pool.ents) - 1 + (IF n > s.pool.avail THEN n - s.pool.avail ELSE 0) <= MaxId
 GenOK == \A i \in DOMAIN s.pool.ents : s.pool.ents[i][2] <= MaxGen
@@ -61,12 +71,18 @@ Create ==
            IN /\ s' = r.s
               /\ g' = IF why = "" /\ r.ok THEN CreateStep(g, r.hs, ids, <<>>, ra.hasTgt, ra.t) ELSE g
               /\ last' = [op |-> "Create", l1 |-> why, l2ok |-> r.ok]
+              /\ hist' = Append(hist, [OpBase EXCEPT !.op = IF batch THEN "NewBatch" ELSE "BuilderNew",
+                                                      !.api = IF batch THEN "Builder.NewBatch" ELSE "Builder.New",
+                                                      !.ids = ids, !.hasRel = ra.hasRel, !.rel = ra.rel, !.hasTgt = ra.hasTgt,
+                                                      !.tgt = Ref(ra.t), !.n = n])
+              /\ base' = base
 
 Remove ==
     \E h \in g.alive :
         /\ h[2] < MaxGen
         /\ s' = LRemove(s, h) /\ g' = RemoveStep(g, h)
         /\ last' = [op |-> "Remove", l1 |-> "", l2ok |-> TRUE]
+        /\ hist' = Append(hist, [OpBase EXCEPT !.op = "RemoveEntity", !.e = Ref(h)]) /\ base' = base
 
 Exchange ==
     \E h \in g.alive, add \in IdSeqs, rem \in IdSeqs, ra \in RelArgs :
@@ -80,18 +96,25 @@ Exchange ==
               /\ s' = r.s
               /\ g' = IF why = "" /\ r.ok THEN ExchangeStep(g, h, add, rem, relGiven, ra.t, <<>>) ELSE g
               /\ last' = [op |-> "Exchange", l1 |-> why, l2ok |-> r.ok]
+              /\ hist' = Append(hist, [OpBase EXCEPT !.op = "Exchange", !.api = IF relGiven THEN "Relations.Exchange" ELSE "World.Exchange",
+                                                      !.e = Ref(h), !.add = add, !.rem = rem, !.hasRel = relGiven, !.rel = ra.rel,
+                                                      !.hasTgt = relGiven, !.tgt = Ref(ra.t)])
+              /\ base' = base
 
 SetVal ==
     \E h \in g.alive, c \in Sized :
         /\ c \in g.comps[h]
         /\ s' = LSet(s, h, c, 1) /\ g' = SetStep(g, h, c, 1)
         /\ last' = [op |-> "Set", l1 |-> "", l2ok |-> TRUE]
+        /\ hist' = Append(hist, [OpBase EXCEPT !.op = "Set", !.api = "World.Set", !.e = Ref(h), !.c = c, !.v = 1]) /\ base' = base
 
 SetRel ==
     \E h \in g.alive, t \in Targets :
         /\ SetRelWhy(g, h, RelOf(g, g.comps[h]), t) = ""
         /\ s' = LSetRelation(s, h, t) /\ g' = SetRelStep(g, h, t)
         /\ last' = [op |-> "SetRel", l1 |-> "", l2ok |-> TRUE]
+        /\ hist' = Append(hist, [OpBase EXCEPT !.op = "SetRelation", !.e = Ref(h), !.rel = RelOf(g, g.comps[h]), !.tgt = Ref(t)])
+        /\ base' = base
 
 BatchExchange ==
     \E bf \in BatchFilters, add \in IdSeqs1, rem \in IdSeqs1, ra \in RelArgs :
@@ -104,14 +127,22 @@ BatchExchange ==
               /\ s' = r.s
               /\ g' = BatchExStep(g, M, add, rem, relGiven, ra.t)
               /\ last' = [op |-> "BatchExchange", l1 |-> "", l2ok |-> r.ok]
+              /\ hist' = Append(hist, [OpBase EXCEPT !.op = "BatchExchange",
+                                                      !.api = IF relGiven THEN "Relations.ExchangeBatch" ELSE "Batch.Exchange",
+                                                      !.add = add, !.rem = rem, !.hasRel = relGiven, !.rel = ra.rel, !.tgt = Ref(ra.t)]
+                                       @@ [f |-> BFJ(bf)])
+              /\ base' = base
 
 BatchSetRel ==
     \E bf \in BatchFilters, rel \in Rels, t \in Targets :
         LET M == QuerySet(g, AbsF(bf)) IN
-        /\ BatchSetRelUpWhy(g, AbsF(bf), t) = "" /\ BatchSetRelAllRel(g, M, rel)
+        /\ BatchSetRelUpWhy(g, AbsF(bf), t) = "" /\ (\A h \in M : RelOf(g, g.comps[h]) = rel)
         /\ s' = LBatchSetRelation(s, bf.f, bf.fid, t)
         /\ g' = BatchSetRelStep(g, M, t)
         /\ last' = [op |-> "BatchSetRel", l1 |-> "", l2ok |-> TRUE]
+        /\ hist' = Append(hist, [OpBase EXCEPT !.op = "BatchSetRelation", !.api = "Batch.SetRelation", !.rel = rel, !.tgt = Ref(t)]
+                                 @@ [f |-> BFJ(bf)])
+        /\ base' = base
 
 BatchRemove ==
     \E bf \in BatchFilters :
@@ -120,10 +151,12 @@ BatchRemove ==
         /\ s' = LBatchRemove(s, bf.f, bf.fid)
         /\ g' = BatchRemoveStep(g, M)
         /\ last' = [op |-> "BatchRemove", l1 |-> "", l2ok |-> TRUE]
+        /\ hist' = Append(hist, [OpBase EXCEPT !.op = "BatchRemove"] @@ [f |-> BFJ(bf)]) /\ base' = base
 
 Reset ==
     /\ s' = LReset(s) /\ g' = ResetStep(g)
     /\ last' = [op |-> "Reset", l1 |-> "", l2ok |-> TRUE]
+    /\ hist' = Append(hist, [OpBase EXCEPT !.op = "Reset"]) /\ base' = base + Len(g.iss)
 
 Register ==
     /\ Len(g.regs) < MaxRegs
@@ -131,6 +164,7 @@ Register ==
          /\ s' = LRegister(s, f)
          /\ g' = [g EXCEPT !.regs = Append(@, [f |-> f, live |-> TRUE])]
          /\ last' = [op |-> "Register", l1 |-> "", l2ok |-> TRUE]
+         /\ hist' = Append(hist, [OpBase EXCEPT !.op = "Register"] @@ [f |-> FJ(f)]) /\ base' = base
 
 Unregister ==
     \E i \in DOMAIN g.regs :
@@ -138,6 +172,7 @@ Unregister ==
         /\ s' = LUnregister(s, i - 1)
         /\ g' = [g EXCEPT !.regs[i].live = FALSE]
         /\ last' = [op |-> "Unregister", l1 |-> "", l2ok |-> TRUE]
+        /\ hist' = Append(hist, [OpBase EXCEPT !.op = "Unregister", !.reg = i - 1]) /\ base' = base
 
 Next == /\ (Create \/ Remove \/ Exchange \/ SetVal \/ SetRel \/ BatchExchange \/ BatchSetRel \/ BatchRemove
             \/ Reset \/ Register \/ Unregister)
@@ -149,6 +184,11 @@ View == <<s, g>>
 Bound == GenOK /\ steps <= MaxSteps
 
 ---------------------------------------------------------------------------
+(* Transition cover: print every history of length MaxSteps+1 (= every transition out of every state reached  *)
+(* within MaxSteps steps, with a shortest history to that state) as a symbolic schedule for the Go harness.   *)
+(* Always TRUE.                                                                                                *)
+EmitPath == steps = MaxSteps + 1 => PrintT(<<"PATH", ToJson(hist)>>)
+
 Struct == StructInv(s)
 CacheOK == CacheInv(s)
 
